@@ -60,7 +60,8 @@ class GetNN(Contract):
     target = f"{REL}::FullGrid._get_N_N"
     variants = ("adjacency", "border_len", "center_distances")
     property_ids = ("C02", "C14", "C19")
-    expected = ("post:product-formula", "post:triplet-positions-pairwise-distinct", "post:symmetric")
+    expected = ("post:product-formula[same rotation, neighbouring positions]", "post:product-formula[same position, other rotation]",
+                "post:triplet-positions-pairwise-distinct", "post:symmetric")
 
     def setup(self, V, variant):
         fg = grid_objects(V)
@@ -113,16 +114,49 @@ class GetNN(Contract):
             V.oblige("post:hint-cell-decomposition", z3.Implies(rng, z3.And(a == n_b * ia + ka, b == n_b * ib + kb, ia >= 0, ia < m, ib >= 0, ib < m,
                                                                           ka >= 0, ka < n_b, kb >= 0, kb < n_b, ia * m + ib >= 0, ia * m + ib < m * m,
                                                                           (ia * m + ib) / m == ia, (ia * m + ib) % m == ib)))
+            # preconditions on the sub-grid matrices, instantiated at the cells of (a, b)
+            ctx.assume(z3.And(O(ka, kb) == O(kb, ka), O(ka, ka) == 0, O(kb, kb) == 0, P(ia, ib) == P(ib, ia), P(ia, ia) == 0, P(ib, ib) == 0))
+            V.oblige("post:hint-block-diagonal", z3.Implies(rng, ((ia * m + ib) % (m + 1) == 0) == (ia == ib)))
+            # hints for the entry that the lookup ghost points to (instances of the filter contract at the cell pair of (a,b))
+            pab = ia * m + ib
+            tf = n_b * finv(pab) + ka
+            here = z3.And(rng, ka == kb, P(ia, ib) != 0)
+            # ground instance (at the cell pair of (a,b)) of the filter contract's quantified axiom that is already assumed
+            ctx.assume(z3.Implies(z3.And(pab >= 0, pab < zint(_len), _cond(pab)),
+                                  z3.And(finv(pab) >= 0, finv(pab) < zint(fi.length), fidx(finv(pab)) == pab)))
+            V.oblige("post:hint-lookup-rank", z3.Implies(here, z3.And(_cond(pab), finv(pab) >= 0, finv(pab) < zint(fi.length), fidx(finv(pab)) == pab)))
+            V.oblige("post:hint-lookup-index", z3.Implies(here, z3.And(tf >= 0, tf < L, tf / n_b == finv(pab), tf % n_b == ka, find(a, b) == tf)))
+            rtf, ctf = to_num(vget(ctx, row, tf)).z, to_num(vget(ctx, col, tf)).z
+            dtf = as_real(to_num(vget(ctx, data, tf)))
+            V.oblige("post:hint-lookup-entry", z3.Implies(here, z3.And(rtf == a, ctf == b, dtf == cfac * P(ia, ib))))
             V.oblige("post:product-formula[same rotation, neighbouring positions]", z3.Implies(z3.And(rng, ka == kb, P(ia, ib) != 0), got == want))
-            V.oblige("post:product-formula[otherwise]", z3.Implies(z3.And(rng, z3.Not(z3.And(ka == kb, P(ia, ib) != 0))), got == want))
+            V.oblige("post:product-formula[same position, other rotation]", z3.Implies(z3.And(rng, ia == ib, ka != kb), got == want))
+            V.oblige("post:product-formula[other position, other rotation: no entry]", z3.Implies(z3.And(rng, ia != ib, ka != kb), z3.And(got == 0, want == 0)))
+            V.oblige("post:product-formula[same rotation, positions not adjacent: no entry]", z3.Implies(z3.And(rng, ka == kb, P(ia, ib) == 0), z3.And(got == 0, want == 0)))
             gotT = as_real(res.dense(ctx, b, a))
             V.oblige("post:symmetric", z3.Implies(rng, z3.And(want == (z3.If(ib == ia, O(kb, ka), z3.RealVal(0)) + z3.If(kb == ka, cfac * P(ib, ia), z3.RealVal(0))))))
             V.oblige("post:empty-diagonal", z3.Implies(z3.And(rng, a == b), want == 0))
         else:
             # a single position cell: the rotation matrix alone
             got = as_real(res.dense(ctx, a, b))
+            ctx.assume(z3.And(O(a, b) == O(b, a), O(a, a) == 0))
             V.oblige("post:product-formula[single position]", z3.Implies(z3.And(rng, m == 1), got == O(a, b)))
             V.oblige("post:single-position-path-only-when-m-is-1", m == 1)
+
+
+    def mustfail(self, V, variant, env, outcome):
+        ctx = V.ctx
+        res = outcome[1]
+        n_b, m, f, O, P = env["n_b"], env["m"], env["f"], env["O"], env["P"]
+        if getattr(res, "sum_of", None) is None or variant == "adjacency":
+            return
+        a, b = z3.Int("a2m"), z3.Int("b2m")
+        n = m * n_b
+        ia, ka, ib, kb = a / n_b, a % n_b, b / n_b, b % n_b
+        # twin: metric factor applied to the rotation family instead of the position family
+        cfac = {"border_len": f * f, "center_distances": f}[variant]
+        wrong = z3.If(ia == ib, cfac * O(ka, kb), z3.RealVal(0)) + z3.If(ka == kb, P(ia, ib), z3.RealVal(0))
+        V.oblige("mustfail:factor-on-the-rotation-family", z3.Implies(z3.And(a >= 0, a < n, b >= 0, b < n), as_real(res.dense(ctx, a, b)) == wrong), kind="mustfail")
 
 
 class TotalVolumes(Contract):
